@@ -232,6 +232,8 @@ class Ctx:
                 rtag = "other"
         except ValueError:
             rtag = "unset"
+        except Exception:                               # pylint: disable=W0703
+            rtag = "error"          # result() must answer, or raise ValueError("job not finished")
         # the badge list() / debrief() print for this job: life-cycle and outcome symbols
         short = job.repr_short()
         life = {"\u2613": 0, "\u21ba": 1, "\u2691": 2, "\u2690": 3, "x": 0, "o": 1, ".": 2, ">": 3}
